@@ -147,7 +147,11 @@ def run(args):
     externals = [c for c in cdb.all if c.assumed]
     frames, out_of_reach = [], []
     t0 = time.time()
-    for c in sel:
+    by_key = {c.key: c for c in cdb.all if not c.assumed}
+    by_lemma = {"lemma:" + getattr(c, "name", ""): c for c in cdb.all if c.kind == "lemma"}
+    work, seen_keys, closure_added = list(sel), {c.key for c in sel}, []
+    while work:
+        c = work.pop(0)
         try:
             fr = eng.verify(c)
             frames.append((c, fr))
@@ -155,6 +159,22 @@ def run(args):
                 out_of_reach.append((c.key, fr.partial_error))
             elif getattr(fr, "unused_anchors", None):
                 out_of_reach.append((c.key, "ghost anchor(s) not found in the function: " + "; ".join(fr.unused_anchors)))
+            # modular verification trusts a callee's contract: every contract (and lemma) used at a call site of a function
+            # verified here is verified here as well, whatever properties it is listed under - the chain from the property to
+            # the code is closed within ONE check
+            used = set()
+            for k in getattr(fr, "callees", ()):
+                if "(file refinement" in k:
+                    # a decoded view passed where a file is expected: the view's own operations carry the file contract
+                    used |= {kk for kk in by_key if kk.startswith("dissect.cobaltstrike.xordecode:XorEncodedFile.")}
+                else:
+                    used.add(k)
+            for k in sorted(used):
+                cc = by_key.get(k) or by_lemma.get(k)
+                if cc is not None and cc.key not in seen_keys:
+                    seen_keys.add(cc.key)
+                    work.append(cc)
+                    closure_added.append(cc.key)
         except Unsupported as ex:
             out_of_reach.append((c.key, str(ex)))
     t_vcgen = time.time() - t0
@@ -437,6 +457,7 @@ def run(args):
             "path_queries": sum(o["n_instances"] for o in ob_index.values()),
             "solver_time_s": solver_time, "vcgen_time_s": round(t_vcgen, 2),
             "instances_decided_in_second_round": len(again),
+            "callee_contracts_verified_by_closure": closure_added,
             "assumed_contracts": assumed_contracts,
             "assumption_scan": assumption_scan,
             "bounded_components": [{k: v for k, v in comp.items() if k != "violations"} for comp in bounded],
